@@ -42,6 +42,13 @@ PERTURB += [
     "SOLUTION 1\n Na 1\n Cl 1\nREACTION_PRESSURE 1\n 800\nREACTION_PRESSURE 4\n 10 20\nREACTION_TEMPERATURE 4\n 30\nREACTION 4\n NaCl 1\n 0.001\nMIX 4\n 1 1\nEND\n",
     "SOLUTION 1-3\n Na 1\n Cl 1\nREACTION_PRESSURE 1-3\n 500\nREACTION_TEMPERATURE 1-3\n 60\nREACTION 1-3\n NaCl 1\n 0.002\nMIX 2\n 1 0.5\n 3 0.5\nUSE solution none\nEND\n",
 ]
+PERTURB += [
+    # parameter tables defined in an INPUT (not only by the database)
+    "GAS_BINARY_PARAMETERS\n CO2(g) CH4(g) 0.4\nMEAN_GAMMAS\n NaCl Na+ 1 Cl- 1\nSOLUTION 1\n Na 1\n Cl 1\nEND\n",
+    "PITZER\n -APHI 0.45\nSOLUTION 1\n Na 1\n Cl 1\nEND\n",
+    # dual-porosity settings of TRANSPORT (-stagnant) must not survive a load
+    "SOLUTION 0-2\n Na 1\n Cl 1\nSOLUTION 4-5\n K 1\n Cl 1\nTRANSPORT\n -cells 2\n -shifts 1\n -time_step 100\n -stagnant 1 6.8e-6 0.3 0.1\nEND\n",
+]
 FAILING = [
     "SOLUTION 1\n Na 1\n Clx 3 charge\nEND\n",                 # input error
     "SOLUTION 1\n pH 7 charge\n Na 1 charge\nEND\n",            # two charge balances
@@ -51,7 +58,15 @@ FAILING = [
     "USE solution 99\nREACTION\n NaCl 1\n 1\nEND\n",             # undefined entity
     "KINETICS 1\n norate\n -m0 1\nSOLUTION 1\n Na 1\nEND\n",     # rate not found
 ]
-DBS = ["phreeqc.dat", "wateq4f.dat", "pitzer.dat", "sit.dat", "Amm.dat", "minteq.v4.dat"]
+DBS = ["phreeqc.dat", "wateq4f.dat", "pitzer.dat", "sit.dat", "Amm.dat", "minteq.v4.dat", "phreeqc_rates.dat", "ColdChem.dat"]
+PARAM_PROBES = [
+    "SOLUTION 0\n Ca 1\n Cl 2\nSOLUTION 1-2\n Na 1\n Cl 1\nSOLUTION 4-5\n K 1\n Cl 1\nSELECTED_OUTPUT 1\n -reset false\n -solution true\n -high_precision true\n -totals Na Ca K\nTRANSPORT\n -cells 2\n -shifts 2\n -time_step 100\n -punch_cells 1-5\nEND\n",
+    "SOLUTION 1\n Na 1\n Cl 1\nUSER_PRINT\n 10 PRINT \"meang\", MEANG(\"NaCl\")\nEND\n",
+    "SOLUTION 1\n Na 1\n Cl 1\nUSER_PRINT\n 10 PRINT \"rate_pk\", RATE_PK(\"Albite\")\nEND\n",
+    "SOLUTION 1\n Na 1\n Cl 1\nUSER_PRINT\n 10 PRINT \"rate_svd\", RATE_SVD(\"Albite\")\nEND\n",
+    "SOLUTION 1\n temp 60\n Na 6000\n Cl 6000\n Ca 50\n S(6) 50\nUSER_PRINT\n 10 PRINT \"aphi\", APHI, SI(\"Gypsum\")\nEND\n",
+    "SOLUTION 1\n temp 50\n pH 6\nGAS_PHASE 1\n -fixed_volume\n -volume 1\n -temperature 50\n CO2(g) 60\n CH4(g) 60\nUSER_PRINT\n 10 PRINT \"gas\", PRESSURE, PR_PHI(\"CO2(g)\")\nEND\n",
+]
 PROBE_EXTRA = ("USER_PUNCH 1\n -headings s1 s2 g1 g2 cv q3 x zz\n 10 PUNCH \"x\", \"y\", GET(1), GET(2, 3), MU\n 20 READ x\n 30 PUNCH x, zz\n 40 DATA 41, 42\nUSER_PRINT\n 10 PRINT \"probe\", MU\nSELECTED_OUTPUT 1\n -high_precision true\n -totals Na Cl\n"
                "SOLUTION 1\n Na 1.5\n Cl 1.5\n Ca 0.2\n C(4) 0.4\nREACTION 1\n NaCl 1\n 0.001 0.002\nEND\nUSE solution 1\nEQUILIBRIUM_PHASES 1\n Calcite 0 0.01\nEND\n")
 
@@ -78,10 +93,15 @@ def gen_case(rng, example_hist=None):
             hist.append(("acc", rng.choice(PERTURB).split("\n")[0]))
         else:
             text = example_hist if (example_hist and rng.random() < 0.5) else rng.choice(PERTURB)
+            if text.startswith("PITZER") and db != "pitzer.dat":
+                db = "pitzer.dat"                     # a PITZER block is only valid input for a Pitzer database
+                hist.append(("load", db))
             hist.append(("run", text))
     if rng.random() < 0.5:
         hist.append(("run", rng.choice(FAILING)))
     probe_db = rng.choice(["phreeqc.dat", "phreeqc.dat", "wateq4f.dat", "pitzer.dat"])
+    if any((h[0] == "load" and h[1] in ("ColdChem.dat", "pitzer.dat")) or (h[0] == "run" and "-APHI" in h[1]) for h in hist) and rng.random() < 0.7:
+        probe_db = "pitzer.dat"                       # Pitzer-model state of the history (A-phi, parameters) must not leak into a Pitzer probe
     probe, info = gen_inputs.multi_sim_input(rng, user_numbers=[1, 3], nsims=rng.randint(1, 3))
     if probe_db != "pitzer.dat":
         probe = PROBE_EXTRA + probe + "RUN_CELLS\n -cells 1-3\nEND\n"      # consults every surviving reactant numbered 1..3
@@ -128,6 +148,11 @@ def hist_ops(case, with_history):
     ops.append(["obs", 0, "lines"])
     ops.append(["c", "RunString", 0, "DUMP\n -all\nEND\n"])
     ops.append(["obs", 0])
+    # parameter tables of the database (MEAN_GAMMAS, RATE_PARAMETERS_*, GAS_BINARY_PARAMETERS): consulted by name, one small run each
+    # (a table that survives the load answers where the fresh instance reports "not found")
+    for text in PARAM_PROBES:
+        ops.append(["c", "RunString", 0, text])
+        ops.append(["obs", 0])
     return ops, iload
 
 
@@ -137,7 +162,12 @@ def run_side(case, wexe, with_history):
         res, rc, err = wrap.run_script(wexe, ops, d, timeout=240)
     if rc != 0 or any(r is None for r in res):
         return None, (rc, err[-300:])
-    return {"load_rc": res[iload]["r"], "after_load": res[iload + 1], "probe_rc": res[iload + 2]["r"], "after_probe": res[iload + 3], "final": res[iload + 5]}, None
+    out = {"load_rc": res[iload]["r"], "after_load": res[iload + 1], "probe_rc": res[iload + 2]["r"], "after_probe": res[iload + 3], "final": res[iload + 5]}
+    for k in range(len(PARAM_PROBES)):
+        o = dict(res[iload + 7 + 2 * k])
+        o["rc"] = res[iload + 6 + 2 * k]["r"]
+        out["param_probe_%d" % k] = o
+    return out, None
 
 
 def norm(o):
@@ -226,7 +256,7 @@ def run(ctx):
             continue
         dumped = any(h[0] == "run" and "DUMP" in h[1] for h in case["hist"])
         filed = any(h[0] == "run" and re.search(r"(?im)^\s*-fi", h[1]) for h in case["hist"])
-        for stage in ("after_load", "after_probe", "final"):
+        for stage in ("after_load", "after_probe", "final") + tuple("param_probe_%d" % k for k in range(len(PARAM_PROBES))):
             oa, ob = norm(a[stage]), norm(b[stage])
             if filed:
                 # a selected-output file name given with -file in an earlier input is a user-set file name: it survives the load by design
